@@ -124,13 +124,14 @@ func c04(c *h.Ctx) {
 	c.Note("extracted txnOrder = " + order)
 	maxN := c.N(3, 4)
 	for n := 1; n <= maxN; n++ {
-		for variant := 0; variant < 2; variant++ {
+		// variants: all createStream; connect (fixed transaction id 1) at each position of the request sequence
+		for variant := 0; variant <= n; variant++ {
 			reqs := make([]txnReq, n)
 			for i := range reqs {
 				reqs[i] = txnReq{"createStream", float64(2 + i*3)}
 			}
-			if variant == 1 {
-				reqs[0] = txnReq{"connect", 1}
+			if variant >= 1 {
+				reqs[variant-1] = txnReq{"connect", 1}
 			}
 			// enumerate: response j goes to slot s_j in [2j, 2n) (even = inside Write of request s/2, odd = after it),
 			// and all orders inside a slot.
@@ -183,7 +184,7 @@ func c04(c *h.Ctx) {
 							c.Hold(len(failed) == 0, "no_spurious_failure", in, impl, "failed=_")
 							c.Hold(wrong == "", "response_type", in, wrong, "each _result decoded as the response type of its request")
 							c.Hold(len(matched) == n, "none_lost", in, impl, fmt.Sprintf("%d matched", n))
-							c.Case(fmt.Sprintf("schedule/n=%d,first=%s", n, reqs[0].kind), fmt.Sprintf("%s slots=%v inW=%v after=%v", in, slots, inW, after), true)
+							c.Case(fmt.Sprintf("schedule/n=%d,connect-at=%d", n, variant), fmt.Sprintf("%s slots=%v inW=%v after=%v", in, slots, inW, after), true)
 							return
 						}
 						for j := 0; j < n; j++ {
@@ -240,6 +241,54 @@ func c04(c *h.Ctx) {
 		r1, r2, r3 := res(9), res(9), res(77)
 		c.Hold(r1 == "ok" && r2 == "err" && r3 == "err", "exactly_once", "createStream tid=9; _result 9; _result 9; _result 77", r1+" "+r2+" "+r3, "ok err err")
 		c.Case("exactly-once", "tid=9 x2, 77", true)
+	}
+
+	// responses nobody is waiting for (answers to calls the library does not track, stray or duplicated _results) are
+	// refused — and must not disturb the matching of the requests that ARE outstanding, whatever their number/order
+	for _, script := range [][]float64{{2, 3, 4}, {9, 9, 9, 4}, {3, 4}, {0, -1, 4}, {2, 3, 5, 6, 7, 8, 4}} {
+		in := &bytes.Buffer{}
+		p := rtmp.NewProtocol(&h.RW{Reader: in, Writer: &bytes.Buffer{}})
+		p.WritePacket(rtmp.NewConnectAppPacket(), 0)
+		call := func(name string, tid float64) {
+			pk := rtmp.NewCallPacket()
+			pk.CommandName = amf0.String(name)
+			pk.TransactionID = amf0.Number(tid)
+			pk.CommandObject = amf0.NewNull()
+			p.WritePacket(pk, 0)
+		}
+		call("releaseStream", 2)
+		call("FCPublish", 3)
+		cs := rtmp.NewCreateStreamPacket()
+		cs.TransactionID = 4
+		p.WritePacket(cs, 0)
+		res := func(kind string, tid float64) string {
+			in.Write(responseWire(kind, tid))
+			m, err := p.ReadMessage()
+			if err != nil {
+				return "read-err"
+			}
+			pkt, err := p.DecodeMessage(m)
+			if err != nil {
+				return "err"
+			}
+			return fmt.Sprintf("%T", pkt)
+		}
+		var got []string
+		for _, tid := range script {
+			got = append(got, res("createStream", tid))
+		}
+		got = append(got, res("connect", 1))
+		want := make([]string, len(script)+1)
+		for i, tid := range script {
+			want[i] = "err"
+			if tid == 4 && i == len(script)-1 {
+				want[i] = "*rtmp.CreateStreamResPacket"
+			}
+		}
+		want[len(script)] = "*rtmp.ConnectAppResPacket"
+		inS := fmt.Sprintf("connect(1), releaseStream(2), FCPublish(3), createStream(4) written; _results %v then _result 1", script)
+		c.Hold(strings.Join(got, ",") == strings.Join(want, ","), "untracked_responses_do_not_disturb", inS, strings.Join(got, ","), strings.Join(want, ","))
+		c.Case("untracked-responses", inS, true)
 	}
 
 	// free-running goroutines (support for the runtime part; under -race in the thorough tier)
